@@ -88,4 +88,15 @@ def cycles (ops : List Ops) : List String :=
   let nodes := (es.map (·.1) ++ es.map (·.2)).eraseDups
   nodes.filter fun n => (reach es es.length ((es.filter (·.1 == n)).map (·.2))).contains n
 
+/-- re-entrant acquisitions: a method that takes a mutex and, on the same receiver, calls a method that takes the
+    same mutex again.  With `sync.RWMutex` even two read locks are a deadlock as soon as a writer queues up between them. -/
+def reentrant (ops : List Ops) (calls : List (String × String × List String)) : List (String × String × String × String) :=
+  calls.flatMap fun (c : String × String × List String) =>
+    let (ty, fn, callees) := c
+    let mine := ((ops.find? fun o => o.1 == ty && o.2.1 == fn).map fun o => o.2.2.1).getD []
+    let held := (mine.filter fun op => op.2 == 1).map (·.1)
+    callees.flatMap fun g =>
+      let theirs := ((ops.find? fun o => o.1 == ty && o.2.1 == g).map fun o => o.2.2.1).getD []
+      (held.filter fun m => takes theirs m).map fun m => (ty, fn, g, m)
+
 end Hagall.Locks
